@@ -20,6 +20,7 @@ type specOpts struct {
 	smallQueues bool // include very short receive queues (buffers are recycled after a few messages)
 	transform   bool // the in-memory realm may carry a (pass-through) tell transform
 	twoSchemes  bool // a multi-transport layer may have two schemes with different MTUs
+	dupBase     bool // the base transport sometimes delivers every datagram twice (tell-only stacks)
 }
 
 var muxKinds = []string{"string", "uint16", "uint32", "uint64", "varint"}
@@ -79,6 +80,10 @@ func genSpec(t *rapid.T, o specOpts) stack.Spec {
 	}
 	if o.errClose && rapid.IntRange(0, 3).Draw(t, "errClose") == 0 {
 		s.Layers = append(s.Layers, stack.Layer{Kind: "errclose"})
+	}
+	if o.dupBase && !o.needAsk && rapid.IntRange(0, 4).Draw(t, "duplicatingTransport") == 0 {
+		s.Layers = append(s.Layers, stack.Layer{Kind: "dup"})
+		hasAsk = false
 	}
 	depth := rapid.IntRange(0, o.maxDepth).Draw(t, "depth")
 	for d := 0; d < depth; d++ {
